@@ -51,13 +51,12 @@ pub fn vvec_contains(v: &Vec<u64>, x: &u64) -> (r: bool)
     ensures r == v@.contains(*x),
 { v.contains(x) }
 
-/// lib.rs::vec_remove_item at T = u64 (remove the first occurrence) -- its body uses iterator adaptors
+/// `v.iter().position(|x| *x == *item)` (std: index of the FIRST element equal to the item, None when there is none) [rewrite R4]
 #[verifier::external_body]
-pub fn vec_remove_item(v: &mut Vec<u64>, item: &u64) -> (r: Option<u64>)
-    ensures r is Some <==> old(v)@.contains(*item),
-        !old(v)@.contains(*item) ==> final(v)@ == old(v)@,
-        old(v)@.contains(*item) ==> final(v)@ == old(v)@.remove(old(v)@.index_of(*item)),
-{ unimplemented!() }
+pub fn vvec_position(v: &Vec<u64>, item: &u64) -> (r: Option<usize>)
+    ensures r is None <==> !v@.contains(*item),
+        r is Some ==> r->Some_0 < v@.len() && r->Some_0 as int == v@.index_of(*item) && v@[r->Some_0 as int] == *item,
+{ v.iter().position(|x| *x == *item) }
 
 /// sha2::Sha256 : ghost input = every byte fed so far
 pub struct Sha256 { pub input: Ghost<Seq<u8>> }
